@@ -124,20 +124,27 @@ Proof. unfold i16_op. destruct (fits_i16 z), p; try discriminate. intros [= <-];
 Lemma u64_op_fits p z : fits_u64 z = true -> u64_op p z = Ok z.
 Proof. intros H. unfold u64_op. now rewrite H. Qed.
 
-Lemma i64_rem_ok a b : b <> 0 -> ~ (a = i64_min /\ b = -1) -> i64_rem a b = Ok (Z.rem a b).
+Lemma checked_i64_fits z : fits_i64 z = true -> checked_i64 z = Ok z.
+Proof. intros H. unfold checked_i64. now rewrite H. Qed.
+Lemma checked_i64_out z : fits_i64 z = false -> checked_i64 z = Err EUnsupported.
+Proof. intros H. unfold checked_i64. now rewrite H. Qed.
+Lemma checked_i64_never_panics z x : checked_i64 z <> Panic x.
+Proof. unfold checked_i64. destruct (fits_i64 z); discriminate. Qed.
+Lemma checked_i64_ok z v : checked_i64 z = Ok v -> v = z /\ fits_i64 z = true.
+Proof. unfold checked_i64. destruct (fits_i64 z); [intros [= <-]; auto|discriminate]. Qed.
+Lemma checked_i16_never_panics z x : checked_i16 z <> Panic x.
+Proof. unfold checked_i16. destruct (fits_i16 z); discriminate. Qed.
+
+(** [checked_rem(..).unwrap_or(0)] is the mathematical truncated remainder: [i64::MIN % -1 = 0] *)
+Lemma i64_rem_spec a b : b <> 0 -> i64_rem a b = Z.rem a b.
 Proof.
-  intros Hb Hm. unfold i64_rem. destruct (Z.eqb_spec b 0); [contradiction|].
-  destruct (Z.eqb_spec a i64_min), (Z.eqb_spec b (-1)); cbn [andb]; try reflexivity. exfalso; auto.
+  intros Hb. unfold i64_rem. destruct (Z.eqb_spec b 0); [contradiction|]. cbn [orb].
+  destruct (Z.eqb_spec a i64_min), (Z.eqb_spec b (-1)); cbn [andb]; try reflexivity.
+  subst a b. reflexivity.
 Qed.
-Lemma i64_rem_panic a b x :
-  i64_rem a b = Panic x -> (b = 0 /\ x = PDivZero) \/ (a = i64_min /\ b = -1 /\ x = POverflow).
-Proof.
-  unfold i64_rem. destruct (Z.eqb_spec b 0); [intros [= <-]; auto|].
-  destruct (Z.eqb_spec a i64_min), (Z.eqb_spec b (-1)); cbn [andb]; try discriminate.
-  intros [= <-]; auto.
-Qed.
-Lemma i64_rem_never_err a b e : i64_rem a b <> Err e.
-Proof. unfold i64_rem. destruct (b =? 0), ((a =? i64_min) && (b =? -1)); discriminate. Qed.
+
+Lemma int_div_never_panics a b x : int_div a b <> Panic x.
+Proof. unfold int_div. destruct ((b =? 0) || ((a =? i64_min) && (b =? -1))); discriminate. Qed.
 
 (** * Integer view of a value *)
 (** the mathematical integer an exact-numeric or boolean value denotes *)
@@ -147,8 +154,9 @@ Definition to_Z (v : sqlvalue) : option Z :=
   | VBoolean b => Some (if b then 1 else 0)
   | _ => None
   end.
-(** known class [unsigned-as-i64-wrap]: an UNSIGNED value above [i64::MAX] *)
-Definition unsigned_wrap (v : sqlvalue) : bool :=
+(** an UNSIGNED value above [i64::MAX]: does not convert to i64 (an error since the C24 fix; used to be
+    reinterpreted as a negative number) *)
+Definition unsigned_out_of_range (v : sqlvalue) : bool :=
   match v with VUnsigned z => 2 ^ 63 <=? z | _ => false end.
 
 (** the pair of i64 operands the integer paths of [+ - * DIV %] work on *)
@@ -160,17 +168,15 @@ Definition exact_pair (l r : sqlvalue) : option (Z * Z) :=
        end.
 
 Lemma to_i64_of_to_Z v z :
-  to_Z v = Some z -> wf v = true -> unsigned_wrap v = false -> to_i64 v = Some z.
+  to_Z v = Some z -> unsigned_out_of_range v = false -> to_i64 v = Ok z.
 Proof.
-  destruct v; cbn [to_Z to_i64 wf unsigned_wrap]; try discriminate; intros [= <-] Hwf Hu; try reflexivity.
-  f_equal. apply wrap64_id. apply fits_i64_iff.
-  unfold in_range in Hwf. apply andb_true_iff in Hwf as [H0 _]. apply Z.leb_le in H0.
-  apply Z.leb_gt in Hu. lia.
+  destruct v; cbn [to_Z to_i64 unsigned_out_of_range]; try discriminate; intros [= <-] Hu; try reflexivity.
+  unfold i64_max. pows. destruct (Z.leb_spec z0 (2 ^ 63 - 1)); [reflexivity|]. apply Z.leb_gt in Hu. lia.
 Qed.
 
-Lemma to_Z_fits v z : to_Z v = Some z -> wf v = true -> unsigned_wrap v = false -> fits_i64 z = true.
+Lemma to_Z_fits v z : to_Z v = Some z -> wf v = true -> unsigned_out_of_range v = false -> fits_i64 z = true.
 Proof.
-  destruct v; cbn [to_Z wf unsigned_wrap]; try discriminate; intros [= <-] Hwf Hu;
+  destruct v; cbn [to_Z wf unsigned_out_of_range]; try discriminate; intros [= <-] Hwf Hu;
     unfold in_range in Hwf; try (apply andb_true_iff in Hwf as [H0 H1]; apply Z.leb_le in H0; apply Z.ltb_lt in H1);
     apply fits_i64_iff; pows; try lia.
   destruct b; lia.
@@ -180,21 +186,25 @@ Lemma to_Z_not_null v z : to_Z v = Some z -> is_null v = false.
 Proof. destruct v; cbn; congruence. Qed.
 
 Lemma exact_pair_of_to_Z l r a b :
-  to_Z l = Some a -> to_Z r = Some b -> wf l = true -> wf r = true ->
-  unsigned_wrap l = false -> unsigned_wrap r = false -> exact_pair l r = Some (a, b).
+  to_Z l = Some a -> to_Z r = Some b ->
+  unsigned_out_of_range l = false -> unsigned_out_of_range r = false -> exact_pair l r = Some (a, b).
 Proof.
-  intros Hl Hr Wl Wr Ul Ur.
-  pose proof (to_i64_of_to_Z _ _ Hl Wl Ul) as Il. pose proof (to_i64_of_to_Z _ _ Hr Wr Ur) as Ir.
+  intros Hl Hr Ul Ur.
+  pose proof (to_i64_of_to_Z _ _ Hl Ul) as Il. pose proof (to_i64_of_to_Z _ _ Hr Ur) as Ir.
   unfold exact_pair. rewrite (to_Z_not_null _ _ Hl), (to_Z_not_null _ _ Hr). cbn [orb].
   destruct l; cbn [to_Z] in Hl; try discriminate;
     destruct r; cbn [to_Z] in Hr; try discriminate;
     try (injection Hl as <-; injection Hr as <-; reflexivity);
     unfold coerce_numeric_values; cbn [is_boolean is_exact_numeric orb andb boolean_to_i64 opt_or];
-    try rewrite Il; try rewrite Ir; cbn [opt_or];
+    try rewrite Il; try rewrite Ir; cbn [opt_or res_ok bind];
     try (destruct b0; cbn [opt_or]); try (destruct b1; cbn [opt_or]);
-    cbn [to_i64] in Il, Ir; try rewrite Il; try rewrite Ir;
+    cbn [to_i64] in Il, Ir; try rewrite Il; try rewrite Ir; cbn [opt_or res_ok bind];
+    repeat match goal with H : Ok _ = Ok _ |- _ => injection H as H; subst end;
     repeat match goal with H : Some _ = Some _ |- _ => injection H as H; subst end; try reflexivity.
 Qed.
+
+Lemma to_i64_never_panics v x : to_i64 v <> Panic x.
+Proof. destruct v; cbn [to_i64]; try discriminate. destruct (z <=? i64_max); discriminate. Qed.
 
 Lemma coerce_never_panics l r x : coerce_numeric_values l r <> Panic x.
 Proof.
@@ -202,7 +212,10 @@ Proof.
   repeat match goal with
          | |- context [if ?c then _ else _] => destruct c
          | |- context [match ?c with Some _ => _ | None => _ end] => destruct c
-         end; discriminate.
+         end; try discriminate.
+  destruct (to_i64 l) eqn:E1; cbn [bind]; try discriminate.
+  - destruct (to_i64 r) eqn:E2; cbn [bind]; try discriminate. intros [= ->]. eapply to_i64_never_panics; eauto.
+  - intros [= ->]. eapply to_i64_never_panics; eauto.
 Qed.
 
 (** * [+], [-], [*] *)
@@ -213,11 +226,11 @@ Definition z_op (o : aop) (a b : Z) : Z :=
 Section WithTemporal.
   Variable temporal : bool -> sqlvalue -> sqlvalue -> res sqlvalue.
 
-  Definition arith3 (o : aop) (p : profile) (l r : sqlvalue) : res sqlvalue :=
+  Definition arith3 (o : aop) (l r : sqlvalue) : res sqlvalue :=
     match o with
-    | OAdd => add temporal p l r
-    | OSub => subtract temporal p l r
-    | OMul => multiply p l r
+    | OAdd => add temporal l r
+    | OSub => subtract temporal l r
+    | OMul => multiply l r
     end.
 
   (** pairs handed to the date arithmetic (not modelled here) or rejected before coercion *)
@@ -234,10 +247,10 @@ Section WithTemporal.
     destruct l, r; cbn; try discriminate; destruct o; reflexivity.
   Qed.
 
-  (** on an exact pair the three operators are the integer operation on i64, unchecked *)
-  Lemma arith3_exact o p l r a b :
+  (** on an exact pair the three operators are the CHECKED integer operation on i64 *)
+  Lemma arith3_exact o l r a b :
     exact_pair l r = Some (a, b) ->
-    arith3 o p l r = (do z <- i64_op p (z_op o a b); Ok (VInteger z)).
+    arith3 o l r = (do z <- checked_i64 (z_op o a b); Ok (VInteger z)).
   Proof.
     intros H. pose proof (exact_pair_not_temporal OAdd _ _ _ H) as Ht.
     unfold exact_pair in H. unfold arith3, add, subtract, multiply.
@@ -251,8 +264,8 @@ Section WithTemporal.
 
   (** without an exact pair (floats, strings, temporal values, NULL) the three operators never panic,
       provided the delegated date arithmetic does not *)
-  Lemma arith3_inexact_no_panic o p l r x :
-    exact_pair l r = None -> temporal_pair o l r = false -> arith3 o p l r <> Panic x.
+  Lemma arith3_inexact_no_panic o l r x :
+    exact_pair l r = None -> temporal_pair o l r = false -> arith3 o l r <> Panic x.
   Proof.
     unfold exact_pair, arith3, add, subtract, multiply, temporal_pair.
     destruct (is_null l || is_null r) eqn:N; [intros _ _; destruct o; discriminate|].
@@ -263,62 +276,64 @@ Section WithTemporal.
       exfalso; eapply coerce_never_panics; eassumption.
   Qed.
 
-  (** ** exact or error: the result of an integer operation that returns is the exact integer,
-         in the Debug profile always, in the Release profile exactly when the exact result fits *)
-  Theorem arith_exact_or_error o p l r a b v :
-    to_Z l = Some a -> to_Z r = Some b -> wf l = true -> wf r = true ->
-    unsigned_wrap l = false -> unsigned_wrap r = false ->
-    arith3 o p l r = Ok v ->
-    (p = Debug \/ fits_i64 (z_op o a b) = true) ->
-    v = VInteger (z_op o a b).
+  (** ** exact or error: on integer operands the result is the exact integer when it fits i64 and an
+         out-of-range error otherwise, in every build *)
+  Theorem arith_exact_or_out_of_range o l r a b :
+    to_Z l = Some a -> to_Z r = Some b ->
+    unsigned_out_of_range l = false -> unsigned_out_of_range r = false ->
+    arith3 o l r = (if fits_i64 (z_op o a b) then Ok (VInteger (z_op o a b)) else Err EUnsupported).
   Proof.
-    intros Hl Hr Wl Wr Ul Ur Hop Hside.
-    rewrite (arith3_exact o p l r a b) in Hop by (apply exact_pair_of_to_Z; assumption).
-    destruct Hside as [-> | Hf].
-    - destruct (i64_op Debug (z_op o a b)) eqn:E; cbn [bind] in Hop; try discriminate.
-      apply i64_op_debug_ok in E as [-> _]. congruence.
-    - rewrite i64_op_fits in Hop by assumption. cbn [bind] in Hop. congruence.
+    intros Hl Hr Ul Ur.
+    rewrite (arith3_exact o l r a b) by (apply exact_pair_of_to_Z; assumption).
+    unfold checked_i64. destruct (fits_i64 (z_op o a b)); reflexivity.
   Qed.
 
-  (** ** no panic (and the exact value) under the no-overflow side condition, both profiles *)
-  Theorem arith_no_overflow_ok o p l r a b :
-    to_Z l = Some a -> to_Z r = Some b -> wf l = true -> wf r = true ->
-    unsigned_wrap l = false -> unsigned_wrap r = false ->
-    fits_i64 (z_op o a b) = true ->
-    arith3 o p l r = Ok (VInteger (z_op o a b)).
+  Theorem arith_exact_or_error o l r a b v :
+    to_Z l = Some a -> to_Z r = Some b ->
+    unsigned_out_of_range l = false -> unsigned_out_of_range r = false ->
+    arith3 o l r = Ok v -> v = VInteger (z_op o a b) /\ fits_i64 (z_op o a b) = true.
   Proof.
-    intros Hl Hr Wl Wr Ul Ur Hf.
-    rewrite (arith3_exact o p l r a b) by (apply exact_pair_of_to_Z; assumption).
-    now rewrite i64_op_fits.
+    intros Hl Hr Ul Ur H. rewrite (arith_exact_or_out_of_range o l r a b) in H by assumption.
+    destruct (fits_i64 (z_op o a b)); [injection H as <-; auto|discriminate].
   Qed.
 
-  (** ** the Debug build panics exactly on overflow; the Release build returns the wrapped value *)
-  Theorem arith_debug_panic_iff_overflow o l r a b :
-    exact_pair l r = Some (a, b) ->
-    (arith3 o Debug l r = Panic POverflow <-> fits_i64 (z_op o a b) = false).
+  (** an UNSIGNED operand above i64::MAX is an error, never a reinterpreted value *)
+  Theorem arith_unsigned_out_of_range_is_error o l r a b :
+    to_Z l = Some a -> to_Z r = Some b ->
+    unsigned_out_of_range l || unsigned_out_of_range r = true ->
+    exists e, arith3 o l r = Err e.
   Proof.
-    intros H. rewrite (arith3_exact o Debug l r a b H). split.
-    - destruct (fits_i64 (z_op o a b)) eqn:E; [|reflexivity]. rewrite i64_op_fits by assumption. discriminate.
-    - intros E. now rewrite i64_op_debug_overflow.
+    intros Hl Hr U. unfold arith3, add, subtract, multiply.
+    rewrite (to_Z_not_null _ _ Hl), (to_Z_not_null _ _ Hr). cbn [orb].
+    destruct l; cbn [to_Z unsigned_out_of_range] in *; try discriminate;
+      destruct r; cbn [to_Z unsigned_out_of_range orb] in *; try discriminate;
+      cbn [is_datelike is_interval andb orb];
+      unfold coerce_numeric_values; cbn [is_boolean is_exact_numeric orb andb boolean_to_i64 to_i64 opt_or res_ok];
+      unfold i64_max; pows;
+      repeat match goal with
+             | |- context [if ?z <=? 2 ^ 63 - 1 then _ else _] =>
+                 destruct (Z.leb_spec z (2 ^ 63 - 1)); cbn [bind opt_or res_ok]
+             | b : bool |- _ => destruct b; cbn [bind opt_or res_ok]
+             end;
+      try (destruct o; eexists; reflexivity);
+      exfalso; rewrite ?orb_false_r in U; try apply orb_true_iff in U;
+      repeat match goal with
+             | H : _ \/ _ |- _ => destruct H
+             | H : (2 ^ 63 <=? _) = true |- _ => apply Z.leb_le in H
+             end; try lia; try discriminate.
   Qed.
 
-  Theorem arith_release_wraps o l r a b :
-    exact_pair l r = Some (a, b) -> arith3 o Release l r = Ok (VInteger (wrap64 (z_op o a b))).
-  Proof. intros H. rewrite (arith3_exact o Release l r a b H), i64_op_release. reflexivity. Qed.
-
-  (** ** every panic of [+ - *], for operands of ANY variant, is a Debug-profile i64 overflow *)
-  Theorem arith_panic_only_overflow o p l r x :
+  (** ** no panic, for operands of ANY variant (the delegated date arithmetic is a hypothesis) *)
+  Theorem arith_never_panics o l r x :
     (forall is_add l' r' y, temporal is_add l' r' <> Panic y) ->
-    arith3 o p l r = Panic x ->
-    p = Debug /\ x = POverflow /\
-    exists a b, exact_pair l r = Some (a, b) /\ fits_i64 (z_op o a b) = false.
+    arith3 o l r <> Panic x.
   Proof.
     intros Ht Hp.
     destruct (exact_pair l r) as [[a b]|] eqn:E.
-    - rewrite (arith3_exact o p l r a b E) in Hp.
-      destruct (i64_op p (z_op o a b)) eqn:Eo; cbn [bind] in Hp; try discriminate.
-      injection Hp as <-. apply i64_op_panic in Eo as (-> & -> & Hf). repeat split; eauto.
-    - exfalso. destruct (temporal_pair o l r) eqn:T.
+    - rewrite (arith3_exact o l r a b E) in Hp.
+      destruct (checked_i64 (z_op o a b)) eqn:Eo; cbn [bind] in Hp; try discriminate.
+      eapply checked_i64_never_panics; eassumption.
+    - destruct (temporal_pair o l r) eqn:T.
       + unfold exact_pair in E. unfold arith3, add, subtract, multiply, temporal_pair in *.
         destruct (is_null l || is_null r) eqn:N; [destruct o; discriminate|].
         destruct o; try discriminate;
@@ -328,265 +343,198 @@ Section WithTemporal.
   Qed.
 End WithTemporal.
 
-(** * Refutations of the full-strength statements (faithful model, real code confirmed by the harness) *)
 Definition no_temporal (_ : bool) (_ _ : sqlvalue) : res sqlvalue := Err EUnsupported.
 
-(** [SELECT 9223372036854775807 + 1], [-9223372036854775808 - 1], [3037000500 * 3037000500] *)
-Lemma arith_no_panic_refuted :
-  arith3 no_temporal OAdd Debug (VInteger i64_max) (VInteger 1) = Panic POverflow /\
-  arith3 no_temporal OSub Debug (VInteger i64_min) (VInteger 1) = Panic POverflow /\
-  arith3 no_temporal OMul Debug (VInteger 3037000500) (VInteger 3037000500) = Panic POverflow.
-Proof. vm_compute. auto. Qed.
+(** the inputs that used to panic (debug) / wrap (release) / be reinterpreted now give errors *)
+Lemma arith_former_witnesses :
+  arith3 no_temporal OAdd (VInteger i64_max) (VInteger 1) = Err EUnsupported /\
+  arith3 no_temporal OSub (VInteger i64_min) (VInteger 1) = Err EUnsupported /\
+  arith3 no_temporal OMul (VInteger 3037000500) (VInteger 3037000500) = Err EUnsupported /\
+  arith3 no_temporal OMul (VInteger i64_max) (VInteger 2) = Err EUnsupported /\
+  arith3 no_temporal OAdd (VUnsigned (2 ^ 64 - 1)) (VInteger 0) = Err EConversion.
+Proof. vm_compute. repeat split. Qed.
 
-Lemma arith_silent_wrap_refuted :
-  arith3 no_temporal OAdd Release (VInteger i64_max) (VInteger 1) = Ok (VInteger i64_min) /\
-  arith3 no_temporal OSub Release (VInteger i64_min) (VInteger 1) = Ok (VInteger i64_max) /\
-  arith3 no_temporal OMul Release (VInteger i64_max) (VInteger 2) = Ok (VInteger (-2)).
-Proof. vm_compute. auto. Qed.
-
-(** [CAST(18446744073709551615 AS UNSIGNED) + 0 = -1] in both profiles *)
-Lemma unsigned_wrap_refuted :
-  forall p, arith3 no_temporal OAdd p (VUnsigned (2 ^ 64 - 1)) (VInteger 0) = Ok (VInteger (-1)).
-Proof. intros []; vm_compute; reflexivity. Qed.
-
-(** hypotheses of the theorems are satisfiable by non-trivial inputs *)
 Example arith_exact_example :
-  arith3 no_temporal OMul Release (VSmallint (-300)) (VBigint 4000000000) = Ok (VInteger (-1200000000000)) /\
-  arith3 no_temporal OSub Debug (VBoolean true) (VUnsigned 5) = Ok (VInteger (-4)) /\
+  arith3 no_temporal OMul (VSmallint (-300)) (VBigint 4000000000) = Ok (VInteger (-1200000000000)) /\
+  arith3 no_temporal OSub (VBoolean true) (VUnsigned 5) = Ok (VInteger (-4)) /\
+  arith3 no_temporal OAdd (VInteger i64_max) (VInteger 0) = Ok (VInteger i64_max) /\
   exact_pair (VSmallint (-300)) (VBigint 4000000000) = Some (-300, 4000000000).
-Proof. vm_compute. auto. Qed.
+Proof. vm_compute. repeat split. Qed.
 
 (** * Modulo, DIV, division *)
-Section WithTemporal2.
-  Lemma modulo_exact_pair l r a b :
-    exact_pair l r = Some (a, b) ->
-    modulo l r = (if b =? 0 then Ok VNull else do z <- i64_rem a b; Ok (VInteger z)).
-  Proof.
-    unfold exact_pair, modulo. destruct (is_null l || is_null r); [discriminate|].
-    destruct l, r; try discriminate; try (intros [= <- <-]; reflexivity);
-      (destruct (coerce_numeric_values _ _) as [[c1 c2|c1 c2|c1 c2]| |]; try discriminate;
-       intros [= <- <-]; cbn [bind coerced_right_is_zero]; reflexivity).
-  Qed.
-
-  Lemma modulo_inexact_no_panic l r x : exact_pair l r = None -> modulo l r <> Panic x.
-  Proof.
-    unfold exact_pair, modulo. destruct (is_null l || is_null r); [discriminate|].
-    destruct l, r; try discriminate;
-      (destruct (coerce_numeric_values _ _) as [[c1 c2|c1 c2|c1 c2]| |] eqn:C; try discriminate;
-       cbn [bind coerced_right_is_zero]; intros _;
-       first [ discriminate
-             | match goal with |- context [if ?c then _ else _] => destruct c end; discriminate
-             | exfalso; eapply coerce_never_panics; eassumption ]).
-  Qed.
-
-  (** [%] returns the exact truncated remainder, NULL for a zero divisor *)
-  Theorem modulo_exact l r a b v :
-    to_Z l = Some a -> to_Z r = Some b -> wf l = true -> wf r = true ->
-    unsigned_wrap l = false -> unsigned_wrap r = false ->
-    modulo l r = Ok v ->
-    (b = 0 /\ v = VNull) \/ (b <> 0 /\ v = VInteger (Z.rem a b)).
-  Proof.
-    intros Hl Hr Wl Wr Ul Ur.
-    rewrite (modulo_exact_pair l r a b) by (apply exact_pair_of_to_Z; assumption).
-    destruct (Z.eqb_spec b 0) as [->|Hb]; [intros [= <-]; auto|].
-    unfold i64_rem. destruct (Z.eqb_spec b 0); [contradiction|].
-    destruct ((a =? i64_min) && (b =? -1)); cbn [bind]; [discriminate|]. intros [= <-]. auto.
-  Qed.
-
-  (** the only panic of [%], for operands of any variant: [i64::MIN % -1] (both profiles) *)
-  Theorem modulo_panic_iff l r x :
-    modulo l r = Panic x <-> x = POverflow /\ exact_pair l r = Some (i64_min, -1).
-  Proof.
-    split.
-    - intros H. destruct (exact_pair l r) as [[a b]|] eqn:E.
-      + rewrite (modulo_exact_pair l r a b E) in H.
-        destruct (Z.eqb_spec b 0); [discriminate|].
-        destruct (i64_rem a b) eqn:R; cbn [bind] in H; try discriminate. injection H as <-.
-        apply i64_rem_panic in R as [[? _]|(-> & -> & ->)]; [contradiction|auto].
-      + exfalso. eapply modulo_inexact_no_panic; eassumption.
-    - intros [-> E]. rewrite (modulo_exact_pair l r _ _ E). reflexivity.
-  Qed.
-
-  (** DIV never panics (it goes through f64 and a saturating cast) ... *)
-  Theorem integer_divide_never_panics l r x : integer_divide l r <> Panic x.
-  Proof.
-    unfold integer_divide. destruct (is_null l || is_null r); [discriminate|].
-    destruct l, r;
-      try (match goal with |- context [if ?c then _ else _] => destruct c end; discriminate);
-      (destruct (coerce_numeric_values _ _) as [[c1 c2|c1 c2|c1 c2]| |] eqn:C; cbn [bind];
-       [ match goal with |- context [if ?c then _ else _] => destruct c end; discriminate ..
-       | discriminate | exfalso; eapply coerce_never_panics; eassumption ]).
-  Qed.
-End WithTemporal2.
-
-(** ... but is not exact: [9007199254740993 DIV 1 = 9007199254740992] and
-    [i64::MIN DIV -1 = i64::MAX] (known class int-div-via-f64) *)
-Lemma integer_divide_inexact_refuted :
-  integer_divide (VInteger 9007199254740993) (VInteger 1) = Ok (VInteger 9007199254740992) /\
-  integer_divide (VInteger i64_min) (VInteger (-1)) = Ok (VInteger i64_max).
-Proof. vm_compute. auto. Qed.
-
-(** DIV is exact on a finite box (exhaustive evaluation of the model: 401 x 400 pairs) *)
-Definition zrange (lo n : nat) : list Z := map (fun k => Z.of_nat k - Z.of_nat lo) (seq 0 n).
-Lemma integer_divide_exact_small_check :
-  forallb (fun a => forallb (fun b => (b =? 0) || (int_div_via_f64 a b =? Z.quot a b)) (zrange 200 401))
-          (zrange 200 401) = true.
-Proof. vm_compute. reflexivity. Qed.
-
-Lemma in_zrange lo n z : - Z.of_nat lo <= z < Z.of_nat n - Z.of_nat lo -> In z (zrange lo n).
+Lemma modulo_exact_pair l r a b :
+  exact_pair l r = Some (a, b) ->
+  modulo l r = (if b =? 0 then Ok VNull else Ok (VInteger (i64_rem a b))).
 Proof.
-  intros H. unfold zrange. apply in_map_iff. exists (Z.to_nat (z + Z.of_nat lo)). split; [lia|].
-  apply in_seq. lia.
+  unfold exact_pair, modulo. destruct (is_null l || is_null r); [discriminate|].
+  destruct l, r; try discriminate; try (intros [= <- <-]; reflexivity);
+    (destruct (coerce_numeric_values _ _) as [[c1 c2|c1 c2|c1 c2]| |]; try discriminate;
+     intros [= <- <-]; cbn [bind coerced_right_is_zero]; reflexivity).
 Qed.
 
-Theorem integer_divide_exact_small a b :
-  -200 <= a <= 200 -> -200 <= b <= 200 -> b <> 0 ->
-  integer_divide (VInteger a) (VInteger b) = Ok (VInteger (Z.quot a b)).
+(** [%] returns the exact truncated remainder (0 for [i64::MIN % -1]), NULL for a zero divisor *)
+Theorem modulo_exact l r a b :
+  to_Z l = Some a -> to_Z r = Some b ->
+  unsigned_out_of_range l = false -> unsigned_out_of_range r = false ->
+  modulo l r = Ok (if b =? 0 then VNull else VInteger (Z.rem a b)).
 Proof.
-  intros Ha Hb Hn.
-  pose proof integer_divide_exact_small_check as H.
-  rewrite forallb_forall in H. specialize (H a (in_zrange 200 401 a ltac:(lia))).
-  rewrite forallb_forall in H. specialize (H b (in_zrange 200 401 b ltac:(lia))).
-  apply orb_true_iff in H as [H|H]; [apply Z.eqb_eq in H; contradiction|]. apply Z.eqb_eq in H.
-  unfold integer_divide. cbn [is_null orb]. destruct (Z.eqb_spec b 0); [contradiction|]. now rewrite H.
+  intros Hl Hr Ul Ur.
+  rewrite (modulo_exact_pair l r a b) by (apply exact_pair_of_to_Z; assumption).
+  destruct (Z.eqb_spec b 0); [reflexivity|]. now rewrite i64_rem_spec.
 Qed.
 
-(** ** Division::divide: the [unreachable!()] arm is reachable (known class div-unreachable-arm) *)
-(** operands for which the coerced kind and the mode's result type have no arm *)
-Definition div_unreachable_class (m : sqlmode) (l r : sqlvalue) : bool :=
-  negb (is_null l || is_null r) &&
-  match coerce_numeric_values l r with
-  | Ok c =>
-      negb (coerced_right_is_zero c) &&
-      match m, c with
-      | MySQL, CApprox _ _ => true                                   (* FLOAT/REAL/DOUBLE operands *)
-      | SQLite, CExact _ _ => is_float_value l || is_float_value r   (* BOOLEAN with a float operand *)
-      | _, _ => false
-      end
-  | _ => false
-  end.
-
-Ltac fin_iff :=
-  split;
-  [ first [ discriminate | intros [= <-]; split; reflexivity ]
-  | first [ intros [_ ?]; discriminate | intros [-> _]; reflexivity ] ].
-
-Theorem divide_panic_iff m l r x :
-  divide m l r = Panic x <-> x = PUnreachable /\ div_unreachable_class m l r = true.
+Theorem modulo_never_panics l r x : modulo l r <> Panic x.
 Proof.
-  unfold divide, div_unreachable_class.
-  destruct (is_null l || is_null r) eqn:N; cbn [negb andb].
-  { fin_iff. }
+  unfold modulo. destruct (is_null l || is_null r); [discriminate|].
+  destruct l, r;
+    try (match goal with |- context [if ?c then _ else _] => destruct c end; discriminate);
+    (destruct (coerce_numeric_values _ _) as [[c1 c2|c1 c2|c1 c2]| |] eqn:C; cbn [bind];
+     [ match goal with |- context [if ?c then _ else _] => destruct c end; discriminate ..
+     | discriminate | exfalso; eapply coerce_never_panics; eassumption ]).
+Qed.
+
+Lemma integer_divide_exact_pair l r a b :
+  exact_pair l r = Some (a, b) ->
+  integer_divide l r = (if b =? 0 then Err EDivisionByZero else do z <- int_div a b; Ok (VInteger z)).
+Proof.
+  unfold exact_pair, integer_divide. destruct (is_null l || is_null r); [discriminate|].
+  destruct l, r; try discriminate; try (intros [= <- <-]; reflexivity);
+    (destruct (coerce_numeric_values _ _) as [[c1 c2|c1 c2|c1 c2]| |]; try discriminate;
+     intros [= <- <-]; cbn [bind coerced_right_is_zero]; reflexivity).
+Qed.
+
+(** DIV is exact i64 division: the truncated quotient, DivisionByZero, or out of range for
+    [i64::MIN DIV -1] *)
+Theorem integer_divide_exact l r a b :
+  to_Z l = Some a -> to_Z r = Some b ->
+  unsigned_out_of_range l = false -> unsigned_out_of_range r = false ->
+  integer_divide l r =
+  (if b =? 0 then Err EDivisionByZero
+   else if (a =? i64_min) && (b =? -1) then Err EUnsupported
+   else Ok (VInteger (Z.quot a b))).
+Proof.
+  intros Hl Hr Ul Ur.
+  rewrite (integer_divide_exact_pair l r a b) by (apply exact_pair_of_to_Z; assumption).
+  destruct (Z.eqb_spec b 0); [reflexivity|]. unfold int_div.
+  destruct (Z.eqb_spec b 0); [contradiction|]. cbn [orb].
+  destruct ((a =? i64_min) && (b =? -1)); reflexivity.
+Qed.
+
+Theorem integer_divide_never_panics l r x : integer_divide l r <> Panic x.
+Proof.
+  unfold integer_divide. destruct (is_null l || is_null r); [discriminate|].
+  destruct l, r;
+    try (match goal with |- context [if ?c then _ else _] => destruct c end; try discriminate;
+         destruct (int_div _ _) eqn:D; cbn [bind]; try discriminate; exfalso; eapply int_div_never_panics; eassumption);
+    (destruct (coerce_numeric_values _ _) as [[c1 c2|c1 c2|c1 c2]| |] eqn:C; cbn [bind];
+     [ match goal with |- context [if ?c then _ else _] => destruct c end; try discriminate;
+       try (destruct (int_div _ _) eqn:D; cbn [bind]; try discriminate; exfalso; eapply int_div_never_panics; eassumption) ..
+     | discriminate | exfalso; eapply coerce_never_panics; eassumption ]).
+Qed.
+
+Lemma integer_divide_former_witnesses :
+  integer_divide (VInteger 9007199254740993) (VInteger 1) = Ok (VInteger 9007199254740993) /\
+  integer_divide (VInteger i64_min) (VInteger (-1)) = Err EUnsupported /\
+  integer_divide (VInteger (-7)) (VInteger 2) = Ok (VInteger (-3)).
+Proof. vm_compute. repeat split. Qed.
+
+(** ** Division::divide never panics, for any operands, in either mode *)
+Theorem divide_never_panics m l r x : divide m l r <> Panic x.
+Proof.
+  unfold divide. destruct (is_null l || is_null r) eqn:N; [discriminate|].
   destruct l, r; unfold coerce_numeric_values;
     cbn [is_boolean is_exact_numeric is_approximate_numeric is_int3 is_numeric_variant orb andb
-         boolean_to_i64 to_i64 to_f64 opt_or];
+         boolean_to_i64 to_i64 to_f64 opt_or res_ok bind];
     repeat match goal with b : bool |- _ => destruct b end;
-    cbn [opt_or bind coerced_right_is_zero];
-    try match goal with |- context [if ?c then _ else _] => destruct c end;
-    destruct m; cbn [negb andb division_result_type is_float_value orb]; fin_iff.
+    cbn [opt_or res_ok bind coerced_right_is_zero];
+    repeat match goal with
+           | |- context [if ?c then _ else _] => destruct c; cbn [opt_or res_ok bind coerced_right_is_zero]
+           end;
+    try discriminate;
+    destruct m; cbn [division_result_type is_float_value orb bind]; try discriminate;
+    try (destruct (int_div _ _) eqn:D; cbn [bind]; try discriminate; exfalso; eapply int_div_never_panics; eassumption).
 Qed.
 
-(** on integer-variant operands (no float involved) [/] never panics, in either mode *)
-Theorem divide_int_no_panic m l r a b x :
-  to_Z l = Some a -> to_Z r = Some b -> divide m l r <> Panic x.
-Proof.
-  intros Hl Hr H. apply divide_panic_iff in H as [_ C]. unfold div_unreachable_class in C.
-  destruct l; cbn [to_Z] in Hl; try discriminate; destruct r; cbn [to_Z] in Hr; try discriminate;
-    unfold coerce_numeric_values in C;
-    cbn [is_null orb negb andb is_boolean is_exact_numeric boolean_to_i64 to_i64 opt_or is_float_value] in C;
-    repeat match type of C with context [match ?bb with true => _ | false => _ end] => destruct bb end;
-    cbn [opt_or coerced_right_is_zero] in C;
-    repeat match type of C with context [if ?c then _ else _] => destruct c end;
-    try destruct m; cbn in C; rewrite ?andb_false_r in C; discriminate.
-Qed.
-
-(** [CAST(1.5 AS FLOAT) / 2] in the default (MySQL) mode; [TRUE / 1.5] in SQLite mode *)
-Lemma divide_no_panic_refuted :
-  divide MySQL (VFloat 1069547520) (VInteger 2) = Panic PUnreachable /\
-  divide SQLite (VBoolean true) (VNumeric 4609434218613702656) = Panic PUnreachable.
-Proof. vm_compute. auto. Qed.
+Lemma divide_former_witnesses :
+  divide MySQL (VFloat 1069547520) (VInteger 2) = Ok (VNumeric 4604930618986332160) /\   (* 0.75 *)
+  divide SQLite (VBoolean true) (VNumeric 4609434218613702656) = Ok (VFloat 1065353216).   (* 1.0: TRUE -> 1, 1.5 -> 1 *)
+Proof. vm_compute. repeat split. Qed.
 
 Example divide_example :
   divide MySQL (VInteger 7) (VInteger 2) = Ok (VNumeric 4615063718147915776) /\   (* 3.5 *)
   divide MySQL (VInteger 7) (VInteger 0) = Ok VNull /\
-  div_unreachable_class MySQL (VInteger 7) (VInteger 2) = false.
-Proof. vm_compute. auto. Qed.
+  divide SQLite (VInteger i64_min) (VInteger (-1)) = Err EUnsupported.
+Proof. vm_compute. repeat split. Qed.
 
-(** * Unary minus, ABS *)
+(** * Unary minus, ABS, MOD() *)
 Definition neg_overflow_class (v : sqlvalue) : bool :=
   match v with
   | VInteger n | VBigint n => n =? i64_min
   | VSmallint n => n =? - 2 ^ 15
   | _ => false
   end.
+Definition int3 (v : sqlvalue) : Prop :=
+  match v with VInteger _ | VBigint _ | VSmallint _ => True | _ => False end.
+Definition same_variant_with (v : sqlvalue) (z : Z) : sqlvalue :=
+  match v with VInteger _ => VInteger z | VBigint _ => VBigint z | VSmallint _ => VSmallint z | _ => v end.
 
-Theorem unary_minus_panic_iff p v x :
-  wf v = true ->
-  (unary_minus p v = Panic x <-> p = Debug /\ x = POverflow /\ neg_overflow_class v = true).
+Theorem unary_minus_exact_or_error v z :
+  wf v = true -> int3 v -> to_Z v = Some z ->
+  unary_minus v = (if neg_overflow_class v then Err EUnsupported else Ok (same_variant_with v (- z))).
 Proof.
-  intros W. destruct v; cbn [unary_minus neg_overflow_class wf] in *;
-    try (split; [discriminate|intros (_ & _ & ?); discriminate]);
+  intros W K Hz. destruct v; try contradiction; cbn [to_Z] in Hz; injection Hz as ->;
+    cbn [unary_minus neg_overflow_class wf same_variant_with] in *;
     unfold in_range in W; apply andb_true_iff in W as [W0 W1]; apply Z.leb_le in W0; apply Z.ltb_lt in W1.
-  1,3: (split;
-    [ destruct (i64_op p (- z)) eqn:E; cbn [bind]; try discriminate; intros [= <-];
-      apply i64_op_panic in E as (-> & -> & F); apply fits_i64_false_iff in F;
-      repeat split; apply Z.eqb_eq; unfold i64_min; lia
-    | intros (-> & -> & H); apply Z.eqb_eq in H; subst z; reflexivity ]).
-  split.
-  - destruct (i16_op p (- z)) eqn:E; cbn [bind]; try discriminate; intros [= <-].
-    apply i16_op_panic in E as (-> & -> & F). repeat split. apply Z.eqb_eq.
-    unfold fits_i16, fits in F. apply andb_false_iff in F as [F|F]; apply Z.leb_gt in F; lia.
-  - intros (-> & -> & H). apply Z.eqb_eq in H. subst z. reflexivity.
+  - unfold checked_i64. destruct (Z.eqb_spec z i64_min) as [->|C]; [reflexivity|].
+    replace (fits_i64 (- z)) with true; [reflexivity|]. symmetry. apply fits_i64_iff. unfold i64_min in C. lia.
+  - unfold checked_i16. destruct (Z.eqb_spec z (- 2 ^ 15)) as [->|C]; [reflexivity|].
+    replace (fits_i16 (- z)) with true; [reflexivity|]. symmetry. apply fits_i16_iff. lia.
+  - unfold checked_i64. destruct (Z.eqb_spec z i64_min) as [->|C]; [reflexivity|].
+    replace (fits_i64 (- z)) with true; [reflexivity|]. symmetry. apply fits_i64_iff. unfold i64_min in C. lia.
 Qed.
 
-Theorem unary_minus_exact p v z :
-  wf v = true -> neg_overflow_class v = false ->
-  match v with VInteger _ | VBigint _ | VSmallint _ => True | _ => False end ->
-  to_Z v = Some z ->
-  exists w, unary_minus p v = Ok w /\ to_Z w = Some (- z).
+Theorem unary_minus_never_panics v x : unary_minus v <> Panic x.
 Proof.
-  intros W C K Hz. destruct v; try contradiction; cbn [to_Z] in Hz; injection Hz as ->;
-    cbn [unary_minus neg_overflow_class wf] in *;
-    unfold in_range in W; apply andb_true_iff in W as [W0 W1]; apply Z.leb_le in W0; apply Z.ltb_lt in W1;
-    apply Z.eqb_neq in C.
-  - rewrite i64_op_fits by (apply fits_i64_iff; unfold i64_min in C; lia). eexists; split; reflexivity.
-  - rewrite i16_op_fits by (apply fits_i16_iff; lia). eexists; split; reflexivity.
-  - rewrite i64_op_fits by (apply fits_i64_iff; unfold i64_min in C; lia). eexists; split; reflexivity.
+  destruct v; cbn [unary_minus]; try discriminate;
+    match goal with |- bind ?c _ <> _ => destruct c eqn:E; cbn [bind]; try discriminate end;
+    exfalso; first [eapply checked_i64_never_panics; eassumption | eapply checked_i16_never_panics; eassumption].
 Qed.
 
-Lemma unary_minus_refuted :
-  unary_minus Debug (VInteger i64_min) = Panic POverflow /\
-  unary_minus Release (VInteger i64_min) = Ok (VInteger i64_min) /\
-  unary_minus Release (VSmallint (-32768)) = Ok (VSmallint (-32768)).
-Proof. vm_compute. auto. Qed.
-
-Theorem abs_panic_iff p v x :
-  wf v = true ->
-  (abs_fn p v = Panic x <-> p = Debug /\ x = POverflow /\ neg_overflow_class v = true).
+Theorem abs_exact_or_error v z :
+  wf v = true -> int3 v -> to_Z v = Some z ->
+  abs_fn v = (if neg_overflow_class v then Err EUnsupported else Ok (same_variant_with v (Z.abs z))).
 Proof.
-  intros W. destruct v; cbn [abs_fn neg_overflow_class wf] in *;
-    try (split; [discriminate|intros (_ & _ & ?); discriminate]);
+  intros W K Hz. destruct v; try contradiction; cbn [to_Z] in Hz; injection Hz as ->;
+    cbn [abs_fn neg_overflow_class wf same_variant_with] in *;
     unfold in_range in W; apply andb_true_iff in W as [W0 W1]; apply Z.leb_le in W0; apply Z.ltb_lt in W1.
-  1,3: (split;
-    [ destruct (i64_op p (Z.abs z)) eqn:E; cbn [bind]; try discriminate; intros [= <-];
-      apply i64_op_panic in E as (-> & -> & F); apply fits_i64_false_iff in F;
-      repeat split; apply Z.eqb_eq; unfold i64_min; lia
-    | intros (-> & -> & H); apply Z.eqb_eq in H; subst z; reflexivity ]).
-  split.
-  - destruct (i16_op p (Z.abs z)) eqn:E; cbn [bind]; try discriminate; intros [= <-].
-    apply i16_op_panic in E as (-> & -> & F). repeat split. apply Z.eqb_eq.
-    unfold fits_i16, fits in F. apply andb_false_iff in F as [F|F]; apply Z.leb_gt in F; lia.
-  - intros (-> & -> & H). apply Z.eqb_eq in H. subst z. reflexivity.
+  - unfold checked_i64. destruct (Z.eqb_spec z i64_min) as [->|C]; [reflexivity|].
+    replace (fits_i64 (Z.abs z)) with true; [reflexivity|]. symmetry. apply fits_i64_iff. unfold i64_min in C. lia.
+  - unfold checked_i16. destruct (Z.eqb_spec z (- 2 ^ 15)) as [->|C]; [reflexivity|].
+    replace (fits_i16 (Z.abs z)) with true; [reflexivity|]. symmetry. apply fits_i16_iff. lia.
+  - unfold checked_i64. destruct (Z.eqb_spec z i64_min) as [->|C]; [reflexivity|].
+    replace (fits_i64 (Z.abs z)) with true; [reflexivity|]. symmetry. apply fits_i64_iff. unfold i64_min in C. lia.
 Qed.
 
-Theorem mod_fn_panic_iff a b x :
-  mod_fn a b = Panic x <-> x = POverflow /\ a = VInteger i64_min /\ b = VInteger (-1).
+Theorem abs_never_panics v x : abs_fn v <> Panic x.
 Proof.
-  split.
-  - destruct a, b; cbn [mod_fn]; try discriminate;
-      try (match goal with |- context [if ?c then _ else _] => destruct c end; discriminate).
-    destruct (Z.eqb_spec z0 0); [discriminate|].
-    destruct (i64_rem z z0) eqn:R; cbn [bind]; try discriminate. intros [= <-].
-    apply i64_rem_panic in R as [[? _]|(-> & -> & ->)]; [contradiction|auto].
-  - intros (-> & -> & ->). reflexivity.
+  destruct v; cbn [abs_fn]; try discriminate;
+    match goal with |- bind ?c _ <> _ => destruct c eqn:E; cbn [bind]; try discriminate end;
+    exfalso; first [eapply checked_i64_never_panics; eassumption | eapply checked_i16_never_panics; eassumption].
 Qed.
+
+Lemma unary_former_witnesses :
+  unary_minus (VInteger i64_min) = Err EUnsupported /\
+  unary_minus (VSmallint (-32768)) = Err EUnsupported /\
+  abs_fn (VBigint i64_min) = Err EUnsupported /\
+  unary_minus (VInteger i64_max) = Ok (VInteger (i64_min + 1)).
+Proof. vm_compute. repeat split. Qed.
+
+Theorem mod_fn_never_panics a b x : mod_fn a b <> Panic x.
+Proof.
+  destruct a, b; cbn [mod_fn]; try discriminate;
+    match goal with |- context [if ?c then _ else _] => destruct c end; discriminate.
+Qed.
+
+Theorem mod_fn_exact x y :
+  mod_fn (VInteger x) (VInteger y) = Ok (if y =? 0 then VNull else VInteger (Z.rem x y)).
+Proof. cbn [mod_fn]. destruct (Z.eqb_spec y 0); [reflexivity|]. now rewrite i64_rem_spec. Qed.
